@@ -269,3 +269,74 @@ func OracleCrash(caseID int, pre []byte, op Op, thorough bool, st *CrashStats) (
 	}
 	return calls, res, out
 }
+
+// SignFaults (C09, "sign"): every storage call Sign issues is made to fail once (full failure
+// and short write); Sign must return an error, and the file must still load with every object
+// it held before unchanged. Also every crash point between calls: the image loads and keeps
+// its objects. Returns the findings and the number of calls / injected failures.
+func SignFaults(k *Keys, caseID int, pre []byte, cfg SignConfig, desc string) ([]Finding, int, int) {
+	var out []Finding
+	bad := func(format string, a ...any) {
+		out = append(out, Finding{Property: "C09", Case: caseID, What: fmt.Sprintf(format, a...), Input: desc})
+	}
+	run := func(failAt int, short bool) (*Recorder, error, bool) {
+		rec := &Recorder{B: sif.NewBuffer(bytes.Clone(pre)), FailAt: -1}
+		f, err := sif.LoadContainer(rec, sif.OptLoadWithCloseOnUnload(false))
+		if err != nil {
+			return nil, nil, false
+		}
+		rec.Calls, rec.FailAt, rec.Short = nil, failAt, short
+		return rec, SignOnHandle(k, f, cfg), true
+	}
+	base, err, ok := run(-1, false)
+	if !ok || err != nil {
+		return nil, 0, 0
+	}
+	preImg, derr := DecodeImage(pre)
+	if derr != nil {
+		return nil, 0, 0
+	}
+	keeps := func(img []byte, what string) {
+		f2, err := sif.LoadContainer(sif.NewBuffer(bytes.Clone(img)), sif.OptLoadWithCloseOnUnload(false))
+		if err != nil {
+			bad("%s: the file no longer loads: %v", what, err)
+			return
+		}
+		_ = f2
+		post, err := DecodeImage(img)
+		if err != nil {
+			bad("%s: the file no longer decodes: %v", what, err)
+			return
+		}
+		for i, d := range preImg.Descs {
+			if !d.Used {
+				continue
+			}
+			if i >= len(post.Descs) || !bytes.Equal(EncodeDesc(d), EncodeDesc(post.Descs[i])) {
+				bad("%s: descriptor of object %d changed", what, d.ID)
+			} else if !bytes.Equal(sectionBytes(pre, d), sectionBytes(img, d)) {
+				bad("%s: content of object %d changed", what, d.ID)
+			}
+		}
+	}
+	n, faults := len(base.Calls), 0
+	for i := 0; i < n; i++ {
+		for _, short := range []bool{false, true} {
+			if short && base.Calls[i].Kind != 1 {
+				continue
+			}
+			rec, err, ok := run(i, short)
+			if !ok {
+				continue
+			}
+			faults++
+			if rec.Failed && err == nil {
+				bad("I/O failure injected into call %d of Sign (kind %d, short=%v) was swallowed: Sign returned nil", i, base.Calls[i].Kind, short)
+			}
+			keeps(rec.B.Bytes(), fmt.Sprintf("after a failure of call %d of Sign", i))
+		}
+		// crash between calls: the first i calls reached the storage
+		keeps(posixApply(pre, base.Calls, i, -1), fmt.Sprintf("crash after %d of %d calls of Sign", i, n))
+	}
+	return out, n, faults
+}
